@@ -60,6 +60,7 @@ type c18Thread struct {
 	slot      *hydra.SwampWaiter
 	cancel    context.CancelFunc
 	cancelled bool
+	sawDel    bool // its Delete of the wait slot has been observed
 	done      chan struct{}
 }
 
@@ -140,7 +141,7 @@ func (w *c18World) next(t int, d time.Duration) (c18Event, bool) {
 		select {
 		case ev := <-w.events:
 			w.apply(ev)
-			if ev.t == t {
+			if ev.t == t && ev.name != "leave.del" {
 				return ev, true
 			}
 		case <-deadline:
@@ -163,6 +164,7 @@ func (w *c18World) apply(ev c18Event) {
 	case "giveup":
 		th.stage = "done"
 	case "leave.del":
+		th.sawDel = true
 	default:
 		th.stage = ev.name
 		th.rel = ev.rel
@@ -534,17 +536,17 @@ func runC18(in *bufio.Scanner, out *bufio.Writer) {
 					w.timeout()
 					res = "unexpected-timeout"
 				}
-				// the Delete hook, if it fired, is queued already
+				// the Delete hook, if it fired, is queued already (or was seen with the decrement)
 				for drained := false; !drained; {
 					select {
 					case ev := <-w.events:
-						if ev.t == t && ev.name == "leave.del" {
-							res = "deleted"
-						}
 						w.apply(ev)
 					default:
 						drained = true
 					}
+				}
+				if th.sawDel {
+					res = "deleted"
 				}
 			default:
 				res = "skip"
